@@ -126,3 +126,104 @@ def work(des, sub, kind, n, timeout):
     else:
         np_ = _step_case(des, sub, n, timeout)
         sub.cover('convert_hypothesis L=%d: the generic step is reachable' % n, np_ >= 1)
+
+# ------------------------------------------------------------------------------------------------------------------------------------
+# _find_possible_keys: the 48-iteration loop that undoes PC-2 branches on one round-key bit per iteration (2^48 paths when executed as
+# written).  It is cut per iteration (loops.LoopCutAt, complete case split over the concrete index k): the invariant DETERMINES the
+# 56-entry work array after k iterations -- entry PC2[j]-1 holds round-key bit j for j < k, every other entry its initial value (the
+# code's own literal: 0, or 255 = unknown) -- so each exploration has two paths (bit set / clear).  After the loop the real code runs on
+# (un-rotation, un-PC-1, the call of _convert_hypothesis_bits_into_keys -- a modular call whose argument is captured).
+# Postcondition, for the round key r of an ARBITRARY key (64 symbolic bits, round key built with the spec schedule):
+#   the bit list handed to _convert_hypothesis_bits_into_keys has, at every position, either the marker 255 or the key's own bit with the
+#   parity positions (8, 16, .., 64) 0; exactly 8 markers; the last entry is known (precondition of the induction's base case).
+# With the contract of _convert_hypothesis_bits_into_keys (complete: every number matching the list is returned) the key with cleared
+# parity bits is therefore among the candidates, and (sound) every candidate agrees with the key on the 48 bits the round key fixes.
+FPK = MOD + '::_find_possible_keys'
+
+def _cval(v):
+    """concrete value of an array element (python / numpy number or a constant machine integer), else None"""
+    if not core.is_sym(v):
+        try: return int(v)
+        except Exception: return None
+    return core.conc(v.z) if hasattr(v, 'z') else None
+
+def find_possible_keys_case(des, rep, nb_round, timeout):
+    import inspect
+    from pyvc import symnp, loops
+    from pyvc.core import SBV
+    from specs import fips46 as D
+    from props.des_common import bits_of
+    tag = 'round %d' % nb_round
+    npaths = 0; entered_bad = False
+    for k in [None] + list(range(48)):
+        cap = {}
+        def body():
+            key = H.sym_bytes('K', (8,), 'uint8')
+            kb = sum([bits_of(key.at(j), 8) for j in range(8)], [])
+            rkb = D.key_schedule_bits(kb)[nb_round]
+            words = [SBV(z3.Concat(z3.BitVecVal(0, 2), *[b if z3.is_expr(b) else z3.BitVecVal(int(b), 1) for b in rkb[6 * w:6 * w + 6]]), 'uint8') for w in range(8)]
+            rk = symnp.ndarray.fresh((8,), lambda i: words[i[0]], 'uint8')
+            st = {}
+            def arr():
+                fr = [f for f in inspect.stack() if f.function == '_find_possible_keys' and 'ci_di' in f.frame.f_locals]
+                return fr[0].frame.f_locals['ci_di']
+            def bit_term(j): return SBV(z3.ZeroExt(7, rkb[j] if z3.is_expr(rkb[j]) else z3.BitVecVal(int(rkb[j]), 1)), 'uint8')
+            def establish():
+                a = arr(); st['init'] = [a.at(p) for p in range(56)]
+                ok = all(_cval(v) in (0, 255) for v in st['init'])
+                loops.oblige('establish: the work array starts from the 0 / unknown-marker literal', 'invariant-init', z3.BoolVal(ok))
+            def state(kk):
+                vals = list(st['init'])
+                for j in range(kk): vals[D.PC2[j] - 1] = bit_term(j)
+                return vals
+            def havoc(kk):
+                a = arr()
+                for p, v in enumerate(state(kk)): a[p] = v
+            def preserve(kk):
+                a = arr(); exp = state(kk + 1)
+                got = [a.at(p) for p in range(56)]
+                goal = z3.And(*[core.zb(core.cast(g, 'uint8') == core.cast(e, 'uint8')) for g, e in zip(got, exp)])
+                loops.oblige('preserve: after iteration %d entry PC2[%d]-1 holds round-key bit %d, all other entries unchanged' % (kk, kk, kk), 'invariant-step', goal)
+            lc = loops.LoopCutAt('fpk', k, establish, havoc, preserve)
+            def conv_stub(real, array): cap['list'] = list(array); return [0]
+            L.set_task(stubs={FN: conv_stub}, loops={FPK + '#0': lc})
+            out = des.fn('_find_possible_keys')(rk, nb_round)
+            return kb, cap.get('list'), lc.entered
+        for p, outc, exc in core.explore(body):
+            npaths += 1
+            oname = 'loop[_find_possible_keys,%s,iteration %s]' % (tag, k)
+            if exc is not None:
+                rep.obligation(oname, FPK, 'post', dict(result='sat', backend='exec', secs=0), sample=repr(exc))
+                rep.violation(oname, FPK, 'raises %r' % (exc,), dict(kind='candidates', round=nb_round), None, *R.replay_native('props.c10_native', dict(kind='candidates', round=nb_round))); continue
+            kb, lst, entered = outc
+            if entered != 1: entered_bad = True
+            for ob in p.obligations:
+                res = solve.discharge(ob['pc'], ob['goal'], timeout_ms=timeout)
+                rep.obligation('%s [%s]' % (ob['name'], tag), FPK, ob['kind'], res)
+                if res['result'] == 'sat':
+                    case = dict(kind='candidates', round=nb_round)
+                    rep.violation('%s [%s]' % (ob['name'], tag), FPK, ob['name'], case, str(res.get('model'))[:600], *R.replay_native('props.c10_native', case))
+            if k is None:
+                # exit: the list handed to the completion helper, from the invariant at 48
+                ok_len = isinstance(lst, list) and len(lst) == 64
+                goals = []; markers = 0; structural_bad = None
+                if ok_len:
+                    for i, v in enumerate(lst):
+                        iv = _cval(v)
+                        if iv is not None:
+                            if iv == 255:
+                                markers += 1
+                                if i % 8 == 7: structural_bad = structural_bad or 'unknown marker at parity position %d' % i
+                            elif iv != 0 or i % 8 != 7: structural_bad = structural_bad or 'constant %d at key position %d' % (iv, i)
+                        elif i % 8 == 7: structural_bad = structural_bad or 'parity position %d is not 0' % i
+                        else: goals.append(core.zb(core.cast(v, 'uint8') == SBV(z3.ZeroExt(7, kb[i]), 'uint8')))
+                    if markers != 8: structural_bad = structural_bad or '%d unknown markers, 8 expected' % markers
+                    if _cval(lst[63]) != 0: structural_bad = structural_bad or 'last entry is not a known 0'
+                else: structural_bad = 'the completion helper is not called with a 64-entry list'
+                res = dict(result='sat', backend='exec', secs=0) if structural_bad else solve.discharge(p.pc, z3.And(*goals) if goals else z3.BoolVal(True), timeout_ms=timeout)
+                rep.obligation('post[_find_possible_keys,%s]: the list completed is the key with 8 unknown markers, parity positions 0, last entry known' % tag, FPK, 'post', res, sample=structural_bad)
+                if res['result'] == 'sat':
+                    case = dict(kind='candidates', round=nb_round)
+                    rep.violation('post[_find_possible_keys,%s]' % tag, FPK, structural_bad or 'a known position of the list differs from the key bit', case, str(res.get('model'))[:600], *R.replay_native('props.c10_native', case))
+    if entered_bad: rep.errors.append('loop contract of _find_possible_keys entered a number of times other than 1 (%s)' % tag)
+    rep.cover('_find_possible_keys %s: both values of a round-key bit explored in the generic iterations' % tag, npaths >= 48 * 2)
